@@ -649,6 +649,19 @@ func runL0(seed int64, n int, dir string) error {
 		stats["probe_different_passphrase"]++
 	}
 	id++
+	for _, nth := range []int{0, 1, 3, 7} {
+		id++
+		fmt.Fprintf(cw, "%d probe stored-plaintext-after-a-failed-node-put %d\n", id, nth)
+		fmt.Fprintf(iw, "%d %s\n", id, probeStoredPlaintextUnderPutFault(nth))
+		stats["probe_stored_plaintext_put_fault"]++
+	}
+	for _, setBF := range []bool{false, true} {
+		id++
+		fmt.Fprintf(cw, "%d probe reopening-a-quiescent-table-with-force-rebranch %v\n", id, setBF)
+		fmt.Fprintf(iw, "%d %s\n", id, probeQuiescentRebranch(setBF))
+		stats["probe_quiescent_rebranch"]++
+	}
+	id++
 	fmt.Fprintf(cw, "%d probe encryptor-reuse\n", id)
 	fmt.Fprintf(iw, "%d %s\n", id, probeEncryptorReuse())
 	id++
